@@ -179,7 +179,7 @@ func c10(c *Ctx) {
 	for n, ok := range expected {
 		c.Check(ok, "limited-service-present", n, "-", "service registered and holds a *Limiter", "service named by the property no longer holds a *services.Limiter (or is not registered)")
 	}
-	c.Floor("token-before-reply", 8, "tftp 4, memcached 5+, snmp 1, counterstrike 1 reply sites")
+	c.Floor("token-before-reply", 4, "reply sites of the four limited services")
 
 	c10Limiter(c, allow, limType)
 }
